@@ -1834,7 +1834,8 @@ class t2data(object):
         self.delete_section('LINEQ')
         # Convert MOPs:
         warnings = []
-        if self.parameter['option'][10] == 2:
+        mulkom_conductivity = self.parameter['option'][10] == 2
+        if mulkom_conductivity:
             self.parameter['option'][10] = 0
             self.convert_mulkom_heat_conductivity()
             warnings.append('MOP(10)=2: MULKOM rock heat conductivities' + \
@@ -1852,7 +1853,8 @@ class t2data(object):
             ismulkom = self.simulator.startswith('MULKOM')
             mulkom_compatibility = self.parameter['option'][23] in [0, 1]
             if (isat2 or ismulkom) and mulkom_compatibility:
-                self.convert_mulkom_heat_conductivity()
+                # (conductivities are converted once only)
+                if not mulkom_conductivity: self.convert_mulkom_heat_conductivity()
                 warnings.append('MOP(23)>0: MULKOM/TOUGH2 backward compatibility')
             self.parameter['option'][23] = 0
         if self.parameter['option'][24] > 0:
